@@ -269,7 +269,7 @@ pub fn table(c: &Table, st: &mut Stats) -> Result<(), String> {
                 check(newv.wrapping_add(d))?;
             }
             for k in 0..c.spread {
-                check((k.wrapping_mul(40503).wrapping_add(new * 7)) as u16)?;
+                check((k.wrapping_mul(40503).wrapping_add(new.wrapping_mul(7))) as u16)?;
             }
         }
     }
@@ -540,7 +540,7 @@ pub fn run(ctx: &Ctx) -> Report {
             let mut poss: Vec<i32> = (0..b as i32).collect();
             poss.extend([-1, b as i32, 0x8000]);
             for pos in poss {
-                items.push(Item::Sweep(Sweep { log2, indirect: (b + pos as u16) % 2 == 1, b, pos, windows: 0, start: 0, exclude_known: exclude }));
+                items.push(Item::Sweep(Sweep { log2, indirect: b.wrapping_add(pos as u16) % 2 == 1, b, pos, windows: 0, start: 0, exclude_known: exclude }));
             }
         }
     }
